@@ -251,4 +251,71 @@ Section Weights.
   Definition weights_eval (n_datasets : nat) (groups : list (list T * list (list T)))
     : res (list (list T) * list T) :=
     do a <- a_jk_calc n_datasets groups; Ok (a, f_j a).
+
+  (* ------------------------------------------------------------------ *)
+  (* the service as an object with state: source record arrays and source weights.
+     A configuration cfg = (W, to_rec): the current source weights per group and
+       to_rec j g g' = arr[j][g].sources_to_recarray(shg_list[g'].source_list)
+     for the CURRENT sources.  yield_call j g rec = arr[j, g](src_recarray = rec). *)
+  Section Service.
+    Context {Rec : Type}.
+
+    (* create_src_recarray_list_list: for ds_idx: for shg_idx:
+         arr[ds_idx][shg_idx].sources_to_recarray(shg_list[shg_idx].source_list) *)
+    Definition create_recarrays (to_rec : Z -> Z -> Z -> Rec) (n_datasets n_shgs : nat)
+      : list (list Rec) :=
+      map (fun j => map (fun g => to_rec (k_rec_arr_ds_idx0 (Z.of_nat j))
+                                         (k_rec_arr_shg_idx0 (Z.of_nat g))
+                                         (k_rec_shg_idx0 (Z.of_nat g)))
+                        (seq 0 n_shgs))
+          (seq 0 n_datasets).
+
+    Definition svc_cfg : Type := (list (list T) * (Z -> Z -> Z -> Rec))%type.
+    Definition svc_state : Type := (list (list T) * list (list Rec))%type.
+
+    (* __init__ and change_shg_mgr both (re-)create the two stored things from the
+       manager's current sources (kernels k_init_weights, k_chg_weights, k_chg_recarrays) *)
+    Definition svc_make (J G : nat) (cfg : svc_cfg) : svc_state :=
+      (fst cfg, create_recarrays (snd cfg) J G).
+    Definition svc_change_to (J G : nat) (old : svc_state) (cfg : svc_cfg) : svc_state :=
+      svc_make J G cfg.
+    Definition svc_after (J G : nat) (cfg0 : svc_cfg) (changes : list svc_cfg) : svc_state :=
+      fold_left (svc_change_to J G) changes (svc_make J G cfg0).
+
+    (* calculate, group shg_idx: for ds_idx: src_recarray = stored[ds_idx][shg_idx];
+       Yg = arr[ds_idx, shg_idx](src_recarray) *)
+    Definition ycol_of (yield_call : Z -> Z -> Rec -> list T) (recs : list (list Rec))
+               (n_datasets : nat) (g : nat) : res (list (list T)) :=
+      mapM (fun j => do row <- py_get recs (k_calc_rec_ds_idx0 (Z.of_nat j));
+                     do rec <- py_get row (k_calc_rec_shg_idx0 (Z.of_nat g));
+                     Ok (yield_call (Z.of_nat j) (Z.of_nat g) rec))
+           (seq 0 n_datasets).
+
+    (* the (W_g, [Y_g for every dataset]) groups a freshly built service would see for cfg:
+       cell (j, g) = arr[j, g] applied to the record array arr[j][g] builds from group g's sources *)
+    Definition svc_groups (J : nat) (cfg : svc_cfg) (yield_call : Z -> Z -> Rec -> list T)
+      : list (list T * list (list T)) :=
+      combine (fst cfg)
+              (map (fun g => map (fun j => yield_call (Z.of_nat j) (Z.of_nat g)
+                                              (snd cfg (Z.of_nat j) (Z.of_nat g) (Z.of_nat g)))
+                                 (seq 0 J))
+                   (seq 0 (length (fst cfg)))).
+
+    Definition svc_calculate (J : nat) (st : svc_state) (yield_call : Z -> Z -> Rec -> list T)
+      : res (list (list T)) :=
+      do Y <- mapM (ycol_of yield_call (snd st) J) (seq 0 (length (fst st)));
+      a_jk_calc J (combine (fst st) Y).
+
+    Definition weights_eval_svc (J : nat) (cfg0 : svc_cfg) (changes : list svc_cfg)
+               (yield_call : Z -> Z -> Rec -> list T) : res (list (list T) * list T) :=
+      do a <- svc_calculate J (svc_after J (length (fst (last changes cfg0))) cfg0 changes) yield_call;
+      Ok (a, f_j a).
+
+    (* MultiDatasetTCLLHRatio.evaluate on the long-lived objects *)
+    Definition multi_eval_svc (opa ns : T) (J : nat) (st : svc_state)
+               (yield_call : Z -> Z -> Rec -> list T) (ds : list dset) : res T :=
+      if negb (Nat.eqb (length ds) J) then Err ValueError else
+      do a <- svc_calculate J st yield_call;
+      multi_loop opa ns a (f_j a) 0 ds (k_ll_init Nm).
+  End Service.
 End Weights.
